@@ -11,6 +11,10 @@ package main
 import (
 	"fmt"
 	"math/big"
+	"math/bits"
+	"runtime"
+	"sync"
+	"time"
 	"sort"
 	"strconv"
 	"strings"
@@ -47,11 +51,14 @@ const (
 	opStale
 	opVerify
 	opBal
+	opHeight    // the Feer's BlockHeight changes (a block arrived)
+	opThreshold // SetResendThreshold
 )
 
 type op struct {
 	kind  opKind
 	i     int   // transaction index
+	h     uint32 // opHeight: new height; opThreshold: resend threshold
 	fpb   int64 // stale: policy fee per byte
 	drops []int // stale: transactions for which isOK returns false
 	pk    payerKey
@@ -147,10 +154,11 @@ type feer struct {
 	off  map[payerKey]*big.Int
 	acc  map[util.Uint160]int
 	fpb  int64
+	h    uint32
 }
 
 func (f *feer) FeePerByte() int64   { return f.fpb }
-func (f *feer) BlockHeight() uint32 { return 10 }
+func (f *feer) BlockHeight() uint32 { return f.h }
 func (f *feer) GetUtilityTokenBalance(p, s util.Uint160) *big.Int {
 	return f.balance(payerKey{f.acc[p], f.acc[s]})
 }
@@ -236,7 +244,57 @@ func (s *snapshot) String() string {
 	return fmt.Sprintf("txs=%s n=%d has=%s hc=%s", csv(s.list), s.count, s.has, s.hc)
 }
 
+// resendLog collects the calls of the pool's resend callback (made from a goroutine).
+type resendLog struct {
+	mu  sync.Mutex
+	ids []int
+	ch  chan struct{}
+}
+
+func (l *resendLog) add(i int) {
+	l.mu.Lock()
+	l.ids = append(l.ids, i)
+	l.mu.Unlock()
+	select {
+	case l.ch <- struct{}{}:
+	default:
+	}
+}
+
+// waitFor blocks until n calls were logged (or 300 ms passed).
+func (l *resendLog) waitFor(n int) {
+	deadline := time.After(300 * time.Millisecond)
+	for l.len() < n {
+		select {
+		case <-l.ch:
+		case <-deadline:
+			return
+		}
+	}
+}
+func (l *resendLog) len() int  { l.mu.Lock(); defer l.mu.Unlock(); return len(l.ids) }
+func (l *resendLog) take() []int {
+	l.mu.Lock()
+	defer l.mu.Unlock()
+	res := l.ids
+	l.ids = nil
+	return res
+}
+
+// isDue is the documented resend rule, computed from outside: the item's age is threshold * 2^k blocks.
+func isDue(threshold, height, stamp uint32) bool {
+	if threshold == 0 {
+		return false
+	}
+	diff := height - stamp
+	return diff%threshold == 0 && bits.OnesCount32(diff/threshold) == 1
+}
+
 type runner struct {
+	resent    *resendLog
+	threshold uint32
+	stampOf   map[int]uint32 // height at which a pooled transaction was added
+
 	o     *hx.Out
 	k     int
 	sc    *scenario
@@ -294,7 +352,7 @@ func protect(f func()) (panicked bool) {
 }
 
 func runScenario(o *hx.Out, k int, sc *scenario) {
-	r := &runner{o: o, k: k, sc: sc, byH: map[util.Uint256]int{}, fails: map[string]bool{}}
+	r := &runner{o: o, k: k, sc: sc, byH: map[util.Uint256]int{}, fails: map[string]bool{}, resent: &resendLog{ch: make(chan struct{}, 1024)}, stampOf: map[int]uint32{}}
 	r.fe = &feer{bals: map[payerKey]int64{}, off: sc.off, acc: map[util.Uint160]int{}}
 	for i := 0; i < 64; i++ {
 		r.fe.acc[account(i)] = i
@@ -327,6 +385,17 @@ func runScenario(o *hx.Out, k int, sc *scenario) {
 		var addErr error
 		var panicked bool
 		switch p.kind {
+		case opHeight:
+			r.fe.h = p.h
+			o.Line(fmt.Sprintf("height %d", p.h), "ok")
+			continue
+		case opThreshold:
+			r.threshold = p.h
+			log := r.resent
+			r.mp.SetResendThreshold(p.h, func(t *transaction.Transaction, _ any) { log.add(r.byH[t.Hash()]) })
+			o.Line(fmt.Sprintf("threshold %d", p.h), "ok")
+			o.Count(fmt.Sprintf("threshold:%d", p.h))
+			continue
 		case opBal:
 			r.fe.bals[p.pk] = p.amt
 			o.Line(fmt.Sprintf("bal %d %d %s", p.pk.p, p.pk.s, r.fe.balance(p.pk).String()), "ok")
@@ -383,6 +452,34 @@ func runScenario(o *hx.Out, k int, sc *scenario) {
 			r.fail("panic", "probe after %s panicked", line)
 			o.Line(line, "panic")
 			return
+		}
+		if p.kind == opStale {
+			// the resend callback runs in a goroutine started by RemoveStale: wait for as many calls as the
+			// documented rule predicts for the kept items (a surplus or a late call shows up at the next refresh)
+			want := 0
+			for _, i := range after.list {
+				if i >= 0 && isDue(r.threshold, r.fe.h, r.stampOf[i]) {
+					want++
+				}
+			}
+			r.resent.waitFor(want)
+			if want == 0 && r.threshold != 0 {
+				runtime.Gosched()
+			}
+			rs := r.resent.take()
+			res = "ok rs=" + csv(rs)
+			if len(rs) > 0 {
+				o.Count("stale:resent-some")
+				o.Add("stale:resent-items", len(rs))
+				for _, i := range rs {
+					if len(sc.defs[i].conflicts) > 0 {
+						o.Count("stale:resent-with-conflicts")
+					}
+				}
+			}
+		}
+		if p.kind == opAdd && addErr == nil {
+			r.stampOf[p.i] = r.fe.h
 		}
 		o.Line(line, fmt.Sprintf("%s ; %s ver=%s", res, after, ver))
 		if p.kind == opAdd {
